@@ -306,16 +306,23 @@ parse_next_record_header:
                     ssl->tls13ServerEarlyDataEnabled == PS_FALSE &&
                     ssl->extFlags.got_early_data == 1)
             {
+                uint32_t skipLen = 0;
+
                 /* If server does not accept early_data then ignore decrypt errors
                    to up-to configured ssl->tls13SessionMaxEarlyData bytes.
                    (TLS1.3 spec chapt. 4.2.10) */
                 psTraceInt("Ignored %d bytes of possible early_data\n",
                         ssl->rec.len - AEAD_TAG_LEN(ssl) - 1);
-                ssl->tls13ReceivedEarlyDataLen +=
-                    (ssl->rec.len - AEAD_TAG_LEN(ssl)- 1);
-                ssl->tls13EarlyDataStatus = MATRIXSSL_EARLY_DATA_REJECTED;
-                if (ssl->tls13ReceivedEarlyDataLen <= ssl->tls13SessionMaxEarlyData)
+                if (ssl->rec.len > (uint32_t) AEAD_TAG_LEN(ssl) + 1)
                 {
+                    skipLen = ssl->rec.len - AEAD_TAG_LEN(ssl) - 1;
+                }
+                ssl->tls13EarlyDataStatus = MATRIXSSL_EARLY_DATA_REJECTED;
+                /* Sum in 32 bits: the 16-bit counter must not wrap. */
+                if ((uint32_t) ssl->tls13ReceivedEarlyDataLen + skipLen
+                        <= ssl->tls13SessionMaxEarlyData)
+                {
+                    ssl->tls13ReceivedEarlyDataLen += skipLen;
                     *in = pb.buf.start + ssl->rec.len;
                     *remaining = pb.buf.end - (pb.buf.start + ssl->rec.len);
                     *len = 0;
@@ -489,8 +496,12 @@ parse_next_record_header:
             {
                 maxEarlyData = ssl->tls13SessionMaxEarlyData;
             }
-            ssl->tls13ReceivedEarlyDataLen += ptLen;
-            if (ssl->tls13ReceivedEarlyDataLen > maxEarlyData)
+            /* Sum in 32 bits: the 16-bit counter must not wrap. */
+            if ((uint32_t) ssl->tls13ReceivedEarlyDataLen + ptLen <= maxEarlyData)
+            {
+                ssl->tls13ReceivedEarlyDataLen += ptLen;
+            }
+            else
             {
                 psTraceIntInfo("Received too much early_data (%d bytes)\n",
                                ssl->tls13ReceivedEarlyDataLen);
